@@ -172,6 +172,35 @@ func (p *Public) WriteTo(w io.Writer) (total int64, err error) {
 	return
 }
 
+// Validate checks that the config contains everything a protocol run relies on, so that an incomplete
+// or corrupted config is refused when a session is started, rather than crashing the session later on.
+func (c *Config) Validate() error {
+	if c == nil {
+		return errors.New("config: config is nil")
+	}
+	if c.Group == nil {
+		return errors.New("config: group is nil")
+	}
+	if c.ECDSA == nil || c.ElGamal == nil || c.ECDSA.IsZero() || c.ElGamal.IsZero() {
+		return errors.New("config: ECDSA or ElGamal secret key is missing or zero")
+	}
+	if c.Paillier == nil || c.Paillier.PublicKey == nil {
+		return errors.New("config: Paillier secret key is missing")
+	}
+	if !ValidThreshold(c.Threshold, len(c.Public)) {
+		return fmt.Errorf("config: threshold %d is invalid", c.Threshold)
+	}
+	for j, public := range c.Public {
+		if public == nil || public.ECDSA == nil || public.ElGamal == nil || public.Paillier == nil || public.Pedersen == nil {
+			return fmt.Errorf("config: party %s: public data is incomplete", j)
+		}
+	}
+	if _, ok := c.Public[c.ID]; !ok {
+		return errors.New("config: no public data for this party")
+	}
+	return nil
+}
+
 // CanSign returns true if the given _sorted_ list of signers is
 // a valid subset of the original parties of size > t,
 // and includes self.
